@@ -62,24 +62,36 @@ pub fn metric(t: &mut Tok) -> proto::Metric {
         })
         .collect();
     m.set_label(lps);
-    if let Some(v) = t.opt(|t| t.f64()) {
+    if let Some(v) = t.opt(|t| t.f64_opt()) {
         let mut g = proto::Gauge::default();
-        g.set_value(v);
+        if let Some(v) = v {
+            g.set_value(v);
+        }
         m.set_gauge(g);
     }
-    if let Some(v) = t.opt(|t| t.f64()) {
+    if let Some(v) = t.opt(|t| t.f64_opt()) {
         let mut c = proto::Counter::default();
-        c.set_value(v);
+        if let Some(v) = v {
+            c.set_value(v);
+        }
         m.set_counter(c);
     }
     if let Some(s) = t.opt(|t| {
         let mut s = proto::Summary::default();
-        s.set_sample_count(t.u64());
-        s.set_sample_sum(t.f64());
+        if let Some(c) = t.u64_opt() {
+            s.set_sample_count(c);
+        }
+        if let Some(x) = t.f64_opt() {
+            s.set_sample_sum(x);
+        }
         let qs = t.list(|t| {
             let mut q = proto::Quantile::default();
-            q.set_quantile(t.f64());
-            q.set_value(t.f64());
+            if let Some(x) = t.f64_opt() {
+                q.set_quantile(x);
+            }
+            if let Some(x) = t.f64_opt() {
+                q.set_value(x);
+            }
             q
         });
         s.set_quantile(qs);
@@ -87,19 +99,29 @@ pub fn metric(t: &mut Tok) -> proto::Metric {
     }) {
         m.set_summary(s);
     }
-    if let Some(v) = t.opt(|t| t.f64()) {
+    if let Some(v) = t.opt(|t| t.f64_opt()) {
         let mut u = proto::Untyped::default();
-        u.set_value(v);
+        if let Some(v) = v {
+            u.set_value(v);
+        }
         set_untyped(&mut m, u);
     }
     if let Some(h) = t.opt(|t| {
         let mut h = proto::Histogram::default();
-        h.set_sample_count(t.u64());
-        h.set_sample_sum(t.f64());
+        if let Some(c) = t.u64_opt() {
+            h.set_sample_count(c);
+        }
+        if let Some(x) = t.f64_opt() {
+            h.set_sample_sum(x);
+        }
         let bs = t.list(|t| {
             let mut b = proto::Bucket::default();
-            b.set_cumulative_count(t.u64());
-            b.set_upper_bound(t.f64());
+            if let Some(c) = t.u64_opt() {
+                b.set_cumulative_count(c);
+            }
+            if let Some(x) = t.f64_opt() {
+                b.set_upper_bound(x);
+            }
             b
         });
         h.set_bucket(bs);
@@ -125,9 +147,17 @@ fn set_untyped(m: &mut proto::Metric, u: proto::Untyped) {
 
 pub fn family(t: &mut Tok) -> proto::MetricFamily {
     let mut mf = proto::MetricFamily::default();
-    mf.set_name(t.string());
-    mf.set_help(t.string());
-    mf.set_field_type(mtype(t.word()));
+    // `~` leaves the field unset (reads back as the data model's default)
+    if let Some(n) = t.string_opt() {
+        mf.set_name(n);
+    }
+    if let Some(h) = t.string_opt() {
+        mf.set_help(h);
+    }
+    match t.word() {
+        "~" => {}
+        w => mf.set_field_type(mtype(w)),
+    }
     let ms = t.list(metric);
     mf.set_metric(ms);
     mf
